@@ -73,6 +73,7 @@ type runner struct {
 	restarts   int
 	cpu        time.Duration
 	watchdogMS int
+	confirm    bool // confirmation run of one case: verdict by CPU time, not by wall-clock time
 	slow       int  // results that cost a full watchdog period (hang / leak)
 	aborted    bool // too many of them: the run is cut short (a verdict exists already)
 }
@@ -142,6 +143,7 @@ func (l *limitedBuf) Write(p []byte) (int, error) {
 func (r *runner) shard(shard int) error {
 	next := 0 // line number within the shard file
 	idle := 0
+	killedWhy := ""
 	pos := map[int]int{}
 	for k, id := range r.ids[shard] {
 		pos[id] = k
@@ -164,6 +166,11 @@ func (r *runner) shard(shard int) error {
 		if r.watchdogMS > 0 {
 			cmd.Env = append(cmd.Env, fmt.Sprintf("C11_WATCHDOG_MS=%d", r.watchdogMS))
 		}
+		if r.confirm {
+			// confirmation run: the child's own wall-clock watchdog is switched off (20 min); the parent
+			// decides by the CPU time the child consumes (see monitorCPU)
+			cmd.Env = append(cmd.Env, "C11_WATCHDOG_MS=1200000", "GOTRACEBACK=all")
+		}
 		stderr := &limitedBuf{max: 256 << 10}
 		cmd.Stderr = stderr
 		out, err := cmd.StdoutPipe()
@@ -183,6 +190,11 @@ func (r *runner) shard(shard int) error {
 			close(lines)
 		}()
 		cur, last, done, killed := -1, -1, false, false
+		monitorVerdict := make(chan string, 1)
+		stopMonitor := make(chan struct{})
+		if r.confirm {
+			go monitorCPU(cmd.Process.Pid, stopMonitor, monitorVerdict)
+		}
 		// backstop for a completely wedged child (the child has its own per-case watchdog); generous,
 		// because on an oversubscribed machine even starting the child can take many seconds
 		pw := 6 * caseWatchdog
@@ -191,6 +203,9 @@ func (r *runner) shard(shard int) error {
 		}
 		if pw < 3*time.Minute {
 			pw = 3 * time.Minute
+		}
+		if r.confirm {
+			pw = 25 * time.Minute
 		}
 		timer := time.NewTimer(pw)
 	loop:
@@ -220,9 +235,12 @@ func (r *runner) shard(shard int) error {
 						return fmt.Errorf("bad result line: %v", err)
 					}
 					if (res.Outcome == "hang" || res.Outcome == "leak") && !strings.Contains(res.Detail, "nil channel") && len(r.cases) > 1 {
-						// timing-based verdict: confirm it right away with an isolated re-run under a three
-						// times longer watchdog (on a loaded machine a slow case looks like a hang)
-						if again, err := runOne(r.c, r.cases[idx]); err == nil {
+						// timing-based verdict: confirm it right away with an isolated re-run that is judged by
+						// CPU time (on a loaded machine a slow case looks like a hang).  A hang whose signature is
+						// a known finding is not worth the confirmation: it cannot affect the verdict.
+						if r.c.IsKnown(signature(&r.cases[idx], &res)) {
+							res.Confirmed = true
+						} else if again, err := runOne(r.c, r.cases[idx]); err == nil {
 							if again.Outcome == "ok" {
 								again.SlowOK = true
 							}
@@ -248,11 +266,17 @@ func (r *runner) shard(shard int) error {
 				case l == "DONE":
 					done = true
 				}
+			case v := <-monitorVerdict:
+				// spinning or blocked: ask the Go runtime for a goroutine dump (SIGQUIT), then make sure it dies
+				killedWhy = v
+				cmd.Process.Signal(syscall.SIGQUIT)
+				go func(p *os.Process) { time.Sleep(20 * time.Second); p.Kill() }(cmd.Process)
 			case <-timer.C:
 				killed = true
 				cmd.Process.Kill()
 			}
 		}
+		close(stopMonitor)
 		werr := cmd.Wait()
 		if ps := cmd.ProcessState; ps != nil {
 			r.mu.Lock()
@@ -269,6 +293,15 @@ func (r *runner) shard(shard int) error {
 			res := &Result{ID: cur}
 			st := stderr.String()
 			switch {
+			case killedWhy != "":
+				res.Outcome = "hang"
+				res.Detail = killedWhy
+				for _, g := range strings.Split(st, "\n\n") {
+					if strings.Contains(g, "created by main.runCase") {
+						res.Stack = truncate(g, 6000)
+						res.Site = siteOf(g)
+					}
+				}
 			case killed:
 				res.Outcome = "hang"
 				res.Detail = "child process unresponsive; killed by the parent watchdog"
@@ -335,9 +368,63 @@ func (r *runner) runAll() error {
 
 var oneSeq atomic.Int64
 
+// monitorCPU decides whether a confirmation child hangs, independently of how loaded the machine is:
+// the cases take milliseconds to a few seconds of CPU, so a child that has burnt cpuBudget CPU-seconds
+// without finishing spins forever, and a child whose CPU time does not advance at all for idleLimit is
+// blocked.  (Wall-clock time alone cannot tell a slow case from a hang on an oversubscribed machine.)
+func monitorCPU(pid int, stop <-chan struct{}, verdict chan<- string) {
+	const cpuBudget = 40.0 // CPU-seconds (the slowest legitimate case needs about 3)
+	const idleLimit = 60 * time.Second
+	const ticksPerSec = 100.0
+	read := func() (float64, bool) {
+		b, err := os.ReadFile(fmt.Sprintf("/proc/%d/stat", pid))
+		if err != nil {
+			return 0, false
+		}
+		s := string(b)
+		i := strings.LastIndexByte(s, ')') // the command name may contain spaces
+		if i < 0 {
+			return 0, false
+		}
+		f := strings.Fields(s[i+1:])
+		if len(f) < 13 {
+			return 0, false
+		}
+		var ut, st float64
+		fmt.Sscan(f[11], &ut)
+		fmt.Sscan(f[12], &st)
+		return (ut + st) / ticksPerSec, true
+	}
+	last, lastChange := -1.0, time.Now()
+	t := time.NewTicker(500 * time.Millisecond)
+	defer t.Stop()
+	for {
+		select {
+		case <-stop:
+			return
+		case <-t.C:
+			cpu, ok := read()
+			if !ok {
+				return
+			}
+			if cpu != last {
+				last, lastChange = cpu, time.Now()
+			}
+			if cpu >= cpuBudget {
+				verdict <- fmt.Sprintf("the isolated re-run burnt %.0f CPU-seconds without finishing (the case normally takes milliseconds)", cpu)
+				return
+			}
+			if time.Since(lastChange) >= idleLimit {
+				verdict <- fmt.Sprintf("the isolated re-run is blocked: no CPU time consumed for %s (%.1f CPU-seconds in total)", idleLimit, cpu)
+				return
+			}
+		}
+	}
+}
+
 // runOne re-runs a single case in a fresh child (confirmation of timing-based verdicts, --replay).
 func runOne(c *core.Ctx, cs Case) (*Result, error) {
-	r := &runner{c: c, cases: []Case{cs}, watchdogMS: int(3 * caseWatchdog / time.Millisecond)}
+	r := &runner{c: c, cases: []Case{cs}, confirm: true}
 	if err := r.write(fmt.Sprintf("one-%d-%d", time.Now().UnixNano(), oneSeq.Add(1)), 1); err != nil {
 		return nil, err
 	}
@@ -684,8 +771,8 @@ func run(c *core.Ctx) error {
 	for _, m := range typeValueMutants() {
 		for i, o := range []Opts{{Threads: 1, ReadMax: 1 << 20, ReadSize: 4096, Validate: true}, {Threads: 2, ReadMax: 1 << 20, ReadSize: 4096, Validate: true}, {Threads: 2, ReadMax: 1 << 20, ReadSize: 4096}} {
 			if i == 0 && strings.HasPrefix(m.Class, "tvcount.") && (strings.HasSuffix(m.Class, "i64max") || strings.HasSuffix(m.Class, "u32")) {
-				// the ZSON formatter loops over the declared count: each of these is a (known) multi-second
-				// hang; the quick tier runs only one of them
+				// before 07362c8e3 the ZSON formatter looped over the declared count (F-C11-9, a multi-second
+				// hang each); the quick tier still runs only one of them
 				hugeCounts++
 				if !full && hugeCounts != 4 {
 					continue
@@ -697,6 +784,29 @@ func run(c *core.Ctx) error {
 		addRead("autostream", "drain", Opts{Threads: 2, ReadMax: 1 << 20, ReadSize: 4096, Validate: true}, "typevalue", m)
 		cases[len(cases)-1].Sink = ""
 	}
+	// regression cases: the witnesses of repaired findings (status "fixed" in known_findings.d/c11.jsonl)
+	// must pass now; a fixed signature suppresses nothing, so a relapse is reported as a VIOLATION
+	wfiles, _ := filepath.Glob(filepath.Join(core.VerifDir, "replays", "known", "C11-*.json"))
+	sort.Strings(wfiles)
+	nRegr := 0
+	for _, wf := range wfiles {
+		b, err := os.ReadFile(wf)
+		if err != nil {
+			continue
+		}
+		var w struct {
+			Signature string `json:"signature"`
+			Witness   struct {
+				Case Case `json:"case"`
+			} `json:"witness"`
+		}
+		if json.Unmarshal(b, &w) != nil || w.Witness.Case.Kind == "" || c.IsKnown(w.Signature) {
+			continue
+		}
+		cases = append(cases, w.Witness.Case)
+		nRegr++
+	}
+	c.Set("regression_witnesses_of_fixed_findings", nRegr)
 	nRead := len(cases)
 
 	// ---- detection cases (AnyDetect binding): every seed, plus a sample of its truncations / edits
@@ -876,7 +986,11 @@ func run(c *core.Ctx) error {
 		}
 	}
 	// deterministic reproduction attempts of the closed-resultChCh arm (parent cancel, then Pull)
-	for _, st := range [][]string{{}, {"V"}, {"V", "V", "V"}, {"V", "C", "V"}, {"E", "V"}} {
+	// (with 8 frames the parser is blocked on the full resultChCh when the cancellation arrives, so it
+	// leaves through a ctx.Done() arm without queueing a final result: the reproduction is deterministic
+	// up to 2^-40)
+	long := []string{"V", "V", "V", "V", "V", "V", "V", "V"}
+	for _, st := range [][]string{long, {}, {"V"}, {"V", "V", "V"}, {"V", "C", "V"}, {"E", "V"}} {
 		for _, th := range []int{2, 3} {
 			for kk := 0; kk <= len(st) && kk <= 1; kk++ {
 				data, err := realize(st, "", 0, 1<<16)
@@ -991,7 +1105,10 @@ func run(c *core.Ctx) error {
 			}
 			confirmed[sig] = true
 			w := *cs
-			saveKnownWitness(c, sig, whatOf(cs, res), map[string]any{"case": w, "observed": res})
+			if cs.Kind != "proto" || (strings.HasPrefix(cs.Consumer, "cancelwait:1") && strings.Count(cs.Seed, ",") >= 7) {
+				// (for the scanner protocol only the deterministic reproduction is kept as a witness)
+				saveKnownWitness(c, sig, whatOf(cs, res), map[string]any{"case": w, "observed": res})
+			}
 			c.Violate(sig, whatOf(cs, res), map[string]any{"case": w, "observed": res})
 			c.Eval(key, true)
 			continue
@@ -1112,6 +1229,9 @@ func hookFrames(stream []string) int {
 
 // checkProto compares the delivered sequence with the spec's prediction.
 func checkProto(c *core.Ctx, cs *Case, res *Result, ps *ProtoSpec, expected [][]string) {
+	if expected == nil {
+		return // a stream outside the exported prediction table (the long cancelwait reproduction)
+	}
 	got := []string{}
 	if res.Delivered != "" {
 		got = strings.Split(res.Delivered, ",")
